@@ -62,6 +62,7 @@ inductive Op
   | get (n : Name) (ev : List Name)
   | unload (n : Name)
   | reopen
+  | reopenWith (max : Nat)      -- another store object on the same directory, with another limit
 deriving Repr
 
 inductive Out
@@ -113,6 +114,7 @@ def step (s : Cache) : Op → Cache × Out
   | .get n ev => get s n ev
   | .unload n => unload s n
   | .reopen => (init s.max s.disk, .done)
+  | .reopenWith m => (init m s.disk, .done)
 
 def run (s : Cache) : List Op → Cache × List Out
   | [] => (s, [])
@@ -136,12 +138,18 @@ def specStep (max : Nat) (m : Spec) : Op → Spec × Out
     | some b => if b.length > max then (m, .memErr) else (m, .data b)
   | .unload _ => (m, .done)
   | .reopen => (m, .done)
+  | .reopenWith _ => (m, .done)
+
+/-- the limit in force after an operation -/
+def nextMax (max : Nat) : Op → Nat
+  | .reopenWith m => m
+  | _ => max
 
 def specRun (max : Nat) (m : Spec) : List Op → Spec × List Out
   | [] => (m, [])
   | op :: ops =>
     let (m1, o) := specStep max m op
-    let (m2, os) := specRun max m1 ops
+    let (m2, os) := specRun (nextMax max op) m1 ops
     (m2, o :: os)
 
 /-! ### invariant -/
@@ -239,8 +247,11 @@ def handle (s : Cache) (ws : List String) : Cache × String :=
     let fs := fields rest
     let (s', o) := unload s (fieldD fs "name")
     (s', showOut o ++ " " ++ digest s')
-  | "reopen" :: _ =>
-    let (s', o) := step s .reopen
+  | "reopen" :: rest =>
+    let fs := fields rest
+    let (s', o) := match (fieldD fs "max").toNat? with
+      | some m => step s (.reopenWith m)
+      | none => step s .reopen
     (s', showOut o ++ " " ++ digest s')
   | "merge" :: rest =>
     let fs := fields rest
